@@ -711,6 +711,172 @@ Section Boundary.
       eexists. exists e. split; [reflexivity|]. change (e_idx (norm j)) with (Z.of_nat j). rewrite T. split; [|exact V].
       replace (n - j) with (S (n - S j)) by lia. cbn [seq filter]. rewrite (Bj L). reflexivity.
   Qed.
+
+  (* ---- backward: operator-- undoes operator++ (and conversely) between two valid positions *)
+
+  Lemma e_prev_norm t i : t < n -> i < t -> del i = false -> (forall k, i < k < t -> del k = true) ->
+    e_prev rdel (norm t) = Some (norm i).
+  Proof.
+    intros Ht Hi Di A. unfold e_prev. change (e_idx (norm t)) with (Z.of_nat t). change (e_valid (norm t)) with (negb (n <=? t)).
+    destruct (Z.ltb_spec (Z.of_nat t - 1) 0); [lia|].
+    replace (Z.to_nat (Z.of_nat t - 1)) with (t - 1) by lia.
+    rewrite (skip_down_spec n del rdel Hr (t - 1) i) by (try lia; try assumption; intros; apply A; lia).
+    destruct (Z.ltb_spec (Z.of_nat i) 0); [lia|]. unfold norm.
+    destruct (Nat.leb_spec n t); [lia|]. destruct (Nat.leb_spec n i); [lia|]. reflexivity.
+  Qed.
+
+  Lemma scan_down_spec ibegin fuel : forall t i, t < n -> i <= t -> del t = false -> P i = true ->
+    (forall k, i < k <= t -> P k = false) -> t - i < fuel ->
+    b_scan_down fuel rdel isb ibegin (norm t) = Some (norm i).
+  Proof.
+    induction fuel as [|fuel IH]; intros t i Ht Hi Dt Pi A Hf; [lia|].
+    cbn [b_scan_down]. unfold e_geb. change (e_valid (norm t)) with (negb (n <=? t)).
+    destruct (Nat.leb_spec n t); [lia|]. cbn [negb orb].
+    unfold isb_z. change (e_idx (norm t)) with (Z.of_nat t). destruct (Z.ltb_spec (Z.of_nat t) 0); [lia|].
+    rewrite Nat2Z.id, (Hb t Ht Dt).
+    destruct (Nat.eq_dec i t) as [->|Ne].
+    - unfold P in Pi. rewrite Dt in Pi. simpl in Pi. rewrite Pi. reflexivity.
+    - assert (Bt : bd t = false). { specialize (A t ltac:(lia)). unfold P in A. rewrite Dt in A. exact A. }
+      rewrite Bt.
+      assert (Di : del i = false). { unfold P in Pi. apply andb_true_iff in Pi. destruct Pi as (Pi & _). apply negb_true_iff in Pi. exact Pi. }
+      (* the previous live entity t' >= i *)
+      destruct (skip_down_char n del rdel Hr (t - 1) ltac:(lia)) as (z & E & C).
+      destruct C as [(-> & All)|(t' & -> & Ht' & Dt' & A')].
+      { rewrite (All i ltac:(lia)) in Di. discriminate. }
+      assert (i <= t'). { destruct (Nat.le_gt_cases i t'); [assumption|]. rewrite (A' i ltac:(lia)) in Di. discriminate. }
+      rewrite (e_prev_norm t t' Ht ltac:(lia) Dt' ltac:(intros; apply A'; lia)).
+      apply IH; try lia; try assumption. intros k Hk. apply A. lia.
+  Qed.
+
+  (* a valid boundary iterator sits on a not-deleted boundary entity *)
+  Definition b_at (i : nat) : bstate := mkB (norm i) true (Z.of_nat i).
+
+  Lemma b_next_at i : i < n -> del i = false ->
+    exists j, i < j <= n /\ (forall k, i < k < j -> P k = false) /\ (j < n -> P j = true) /\
+              exists b', b_next rdel n isb (b_at i) = Some b' /\ (j < n -> b' = b_at j) /\ (n <= j -> b_valid b' = false).
+  Proof.
+    intros Hi Di. unfold b_next, b_at. cbn [b_it b_valid b_cur].
+    rewrite (entity_end_state n del rdel Hr).
+    destruct (e_next_norm i Hi) as (j' & E & R & A & B). rewrite E.
+    destruct (scan_up_spec (scan_fuel n (norm j')) j' ltac:(lia) B (scan_fuel_ok j')) as (j & Ej & Rj & Aj & Bj).
+    rewrite Ej, norm_eqb_end by lia. exists j. split; [lia|]. split.
+    - intros k Hk. destruct (Nat.lt_ge_cases k j') as [Lk|Lk]; [unfold P; rewrite A by lia; reflexivity|apply Aj; lia].
+    - split; [exact Bj|]. destruct (Nat.leb_spec n j); cbn [negb]; eexists; (split; [reflexivity|]); split; intros; try lia; reflexivity.
+  Qed.
+
+  Theorem boundary_prev_next i b' : i < n -> P i = true ->
+    b_next rdel n isb (b_at i) = Some b' -> b_valid b' = true -> b_prev rdel n isb b' = Some (b_at i).
+  Proof.
+    intros Hi Pi N V'.
+    assert (Di : del i = false). { unfold P in Pi. apply andb_true_iff in Pi. destruct Pi as (Pi & _). apply negb_true_iff in Pi. exact Pi. }
+    destruct (b_next_at i Hi Di) as (j & Rj & Aj & Bj & b2 & E2 & In & Out). rewrite E2 in N. injection N as <-.
+    destruct (Nat.lt_ge_cases j n) as [Lj|Lj]; [|rewrite (Out Lj) in V'; discriminate].
+    rewrite (In Lj). specialize (Bj Lj).
+    assert (Dj : del j = false). { unfold P in Bj. apply andb_true_iff in Bj. destruct Bj as (Bj & _). apply negb_true_iff in Bj. exact Bj. }
+    unfold b_prev, b_at. cbn [b_it b_valid b_cur].
+    destruct (settle_spec n del rdel Hr 0 true ltac:(lia)) as (j0 & E0 & R0 & A0 & B0). unfold e_begin. rewrite E0.
+    (* the previous live entity before j *)
+    destruct (skip_down_char n del rdel Hr (j - 1) ltac:(lia)) as (z & E & C).
+    destruct C as [(-> & All)|(t & -> & Ht & Dt & At)].
+    { rewrite (All i ltac:(lia)) in Di. discriminate. }
+    assert (i <= t). { destruct (Nat.le_gt_cases i t); [assumption|]. rewrite (At i ltac:(lia)) in Di. discriminate. }
+    rewrite (e_prev_norm j t Lj ltac:(lia) Dt ltac:(intros; apply At; lia)).
+    rewrite (scan_down_spec _ (scan_fuel n (norm t)) t i ltac:(lia) H Dt Pi ltac:(intros; apply Aj; lia))
+      by (unfold scan_fuel, norm; cbn [e_idx]; lia).
+    unfold e_geb. change (e_valid (norm i)) with (negb (n <=? i)). destruct (Nat.leb_spec n i); [lia|]. reflexivity.
+  Qed.
+
+  Lemma last_P_below j :
+    (exists i, i < j /\ P i = true /\ forall k, i < k < j -> P k = false) \/ (forall k, k < j -> P k = false).
+  Proof.
+    induction j as [|j IH]; [right; intros; lia|].
+    destruct (P j) eqn:Pj.
+    - left. exists j. split; [lia|]. split; [exact Pj|]. intros; lia.
+    - destruct IH as [(i & Hi & Pi & A)|A].
+      + left. exists i. split; [lia|]. split; [exact Pi|]. intros k Hk. destruct (Nat.eq_dec k j) as [->|]; [exact Pj|apply A; lia].
+      + right. intros k Hk. destruct (Nat.eq_dec k j) as [->|]; [exact Pj|apply A; lia].
+  Qed.
+
+  Lemma scan_down_none ibegin fuel : e_valid ibegin = true -> forall t, t < n -> del t = false ->
+    (forall k, k <= t -> P k = false) -> t < fuel ->
+    b_scan_down fuel rdel isb ibegin (norm t) = Some (mkE (-1)%Z false).
+  Proof.
+    intros Vb. induction fuel as [|fuel IH]; intros t Ht Dt A Hf; [lia|].
+    cbn [b_scan_down]. unfold e_geb. change (e_valid (norm t)) with (negb (n <=? t)).
+    destruct (Nat.leb_spec n t); [lia|]. cbn [negb orb].
+    unfold isb_z. change (e_idx (norm t)) with (Z.of_nat t). destruct (Z.ltb_spec (Z.of_nat t) 0); [lia|].
+    rewrite Nat2Z.id, (Hb t Ht Dt).
+    assert (Bt : bd t = false). { specialize (A t ltac:(lia)). unfold P in A. rewrite Dt in A. exact A. }
+    rewrite Bt.
+    destruct t as [|t1].
+    - (* -- from index 0 *)
+      replace (e_prev rdel (norm 0)) with (Some (mkE (-1)%Z false)) by reflexivity.
+      destruct fuel; cbn [b_scan_down]; unfold e_geb; cbn [e_valid]; rewrite Vb; reflexivity.
+    - destruct (skip_down_char n del rdel Hr t1 ltac:(lia)) as (z & E & C).
+      destruct C as [(-> & All)|(t' & -> & Ht' & Dt' & A')].
+      + assert (Ep : e_prev rdel (norm (S t1)) = Some (mkE (-1)%Z false)).
+        { unfold e_prev. change (e_idx (norm (S t1))) with (Z.of_nat (S t1)).
+          destruct (Z.ltb_spec (Z.of_nat (S t1) - 1) 0); [lia|]. replace (Z.to_nat (Z.of_nat (S t1) - 1)) with t1 by lia.
+          rewrite E. reflexivity. }
+        rewrite Ep. destruct fuel; cbn [b_scan_down]; unfold e_geb; cbn [e_valid]; rewrite Vb; reflexivity.
+      + rewrite (e_prev_norm (S t1) t' Ht ltac:(lia) Dt' ltac:(intros; apply A'; lia)).
+        apply IH; try lia; try assumption. intros k Hk. apply A. lia.
+  Qed.
+
+  (* operator-- from a valid position: the previous boundary entity, or invalid (handle unchanged) if there is none *)
+  Lemma b_prev_at j : j < n -> del j = false ->
+    (exists i, i < j /\ P i = true /\ (forall k, i < k < j -> P k = false) /\ b_prev rdel n isb (b_at j) = Some (b_at i)) \/
+    ((forall k, k < j -> P k = false) /\ exists b', b_prev rdel n isb (b_at j) = Some b' /\ b_valid b' = false /\ b_cur b' = Z.of_nat j).
+  Proof.
+    intros Hj Dj. unfold b_prev, b_at. cbn [b_it b_valid b_cur].
+    destruct (settle_spec n del rdel Hr 0 true ltac:(lia)) as (j0 & E0 & R0 & A0 & B0). unfold e_begin. rewrite E0.
+    assert (J0 : j0 <= j). { destruct (Nat.le_gt_cases j0 j); [assumption|]. rewrite (A0 j) in Dj by lia. discriminate. }
+    destruct (Nat.leb_spec n j0) as [L0|L0]; [lia|].
+    destruct (last_P_below j) as [(i & Hi & Pi & A)|A].
+    - left. exists i. split; [exact Hi|]. split; [exact Pi|]. split; [exact A|].
+      assert (Di : del i = false). { unfold P in Pi. apply andb_true_iff in Pi. destruct Pi as (Pi & _). apply negb_true_iff in Pi. exact Pi. }
+      destruct (skip_down_char n del rdel Hr (j - 1) ltac:(lia)) as (z & E & C).
+      destruct C as [(-> & All)|(t & -> & Ht & Dt & At)].
+      { rewrite (All i ltac:(lia)) in Di. discriminate. }
+      assert (i <= t). { destruct (Nat.le_gt_cases i t); [assumption|]. rewrite (At i ltac:(lia)) in Di. discriminate. }
+      rewrite (e_prev_norm j t Hj ltac:(lia) Dt ltac:(intros; apply At; lia)).
+      rewrite (scan_down_spec _ (scan_fuel n (norm t)) t i ltac:(lia) H Dt Pi ltac:(intros; apply A; lia))
+        by (unfold scan_fuel, norm; cbn [e_idx]; lia).
+      unfold e_geb. change (e_valid (norm i)) with (negb (n <=? i)). destruct (Nat.leb_spec n i); [lia|]. reflexivity.
+    - right. split; [exact A|].
+      destruct j as [|j1].
+      + replace (e_prev rdel (norm 0)) with (Some (mkE (-1)%Z false)) by reflexivity.
+        cbn [scan_fuel b_scan_down e_idx]. unfold e_geb at 1. cbn [e_valid orb negb]. cbn [e_geb e_valid orb negb].
+        eexists. split; [reflexivity|]. split; reflexivity.
+      + destruct (skip_down_char n del rdel Hr j1 ltac:(lia)) as (z & E & C).
+        destruct C as [(-> & All)|(t & -> & Ht & Dt & At)].
+        * assert (Ep : e_prev rdel (norm (S j1)) = Some (mkE (-1)%Z false)).
+          { unfold e_prev. change (e_idx (norm (S j1))) with (Z.of_nat (S j1)).
+            destruct (Z.ltb_spec (Z.of_nat (S j1) - 1) 0); [lia|]. replace (Z.to_nat (Z.of_nat (S j1) - 1)) with j1 by lia.
+            rewrite E. reflexivity. }
+          rewrite Ep. cbn [scan_fuel b_scan_down e_idx]. unfold e_geb at 1. cbn [e_valid orb negb]. cbn [e_geb e_valid orb negb].
+          eexists. split; [reflexivity|]. split; reflexivity.
+        * rewrite (e_prev_norm (S j1) t Hj ltac:(lia) Dt ltac:(intros; apply At; lia)).
+          rewrite (scan_down_none (mkE (Z.of_nat j0) true) (scan_fuel n (norm t)) eq_refl t ltac:(lia) Dt ltac:(intros; apply A; lia))
+            by (unfold scan_fuel, norm; cbn [e_idx]; lia).
+          cbn [e_geb e_valid orb negb]. eexists. split; [reflexivity|]. split; reflexivity.
+  Qed.
+
+  Theorem boundary_next_prev j b' : j < n -> P j = true ->
+    b_prev rdel n isb (b_at j) = Some b' -> b_valid b' = true -> b_next rdel n isb b' = Some (b_at j).
+  Proof.
+    intros Hj Pj N V'.
+    assert (Dj : del j = false). { unfold P in Pj. apply andb_true_iff in Pj. destruct Pj as (Pj & _). apply negb_true_iff in Pj. exact Pj. }
+    destruct (b_prev_at j Hj Dj) as [(i & Hi & Pi & A & E)|(_ & b2 & E & V2 & _)]; rewrite E in N; injection N as <-; [|rewrite V2 in V'; discriminate].
+    assert (Di : del i = false). { unfold P in Pi. apply andb_true_iff in Pi. destruct Pi as (Pi & _). apply negb_true_iff in Pi. exact Pi. }
+    destruct (b_next_at i ltac:(lia) Di) as (j2 & Rj & Aj & Bj & b2 & E2 & In & Out). rewrite E2.
+    assert (j2 = j).
+    { destruct (Nat.lt_trichotomy j2 j) as [Lt|[Eq|Gt]]; [|exact Eq|].
+      - specialize (Bj ltac:(lia)). rewrite (A j2) in Bj by lia. discriminate.
+      - rewrite (Aj j) in Pj by lia. discriminate. }
+    subst j2. rewrite (In Hj). reflexivity.
+  Qed.
+
 End Boundary.
 
 (* without has_incidences() the iterator is invalid at construction and reads nothing *)
